@@ -116,11 +116,20 @@ class Consumption:
         self._busy.add(k)
         modes = set()
         gen = is_generator(fi.node)
-        for u in self.uses(fi, pname):
+        uses = self.uses(fi, pname)
+        for u in uses:
             m = u.mode
             if gen and m in ('loop', 'yieldfrom', 'lazy', 'next'):
                 m = 'lazy'   # the work happens when the generator is pulled
             modes.add(m)
+        # it = iter(p); first = next(it); for x in it: ...  -- several reads
+        # of ONE explicit cursor are one pass over p, not two
+        reads = [u for u in uses if u.mode in ('loop', 'next', 'yieldfrom')]
+        if len(reads) > 1 and 'next' in modes and all(
+                u.via == 'builtins.iter' and u.alias for u in reads) and \
+                len({u.alias for u in reads}) == 1 and \
+                modes & {'loop', 'yieldfrom'}:
+            modes.discard('next')
         self._busy.discard(k)
         self._summ[k] = modes
         return modes
